@@ -1,7 +1,10 @@
 """C20 — a protocol run is always a valid, correctly attributed interaction.
 
-1. obligations: Props/C20.lean (lake build, axiom audit): the run invariant for every event and every
-   schedule of the event-level machine of Model/IoRun.lean;
+1. obligations: harness/translate_iorun.py reads the rule the CURRENT source has for fragment selection / reading /
+   clearing (sender AND recipient vs sender only), the recipient filter on the candidate types and the
+   `_extends_history` guard of the send -> Generated/IoRun.lean; Props/C20.lean (lake build, axiom audit): the run
+   invariant — with attribution to sender AND recipient and per-(sender, recipient) exactly-once accounting — for
+   every event and every schedule of the event-level machine of Model/IoRun.lean, stated for the generated rule;
 2. generated protocol specs (2-3 parties, one or two fuzzer-controlled, alternatives / options / bounded
    repetitions, message types whose contents share prefixes, constraints that forbid some contents) ×
    peer behaviours (valid, wrong type, constraint-violating, truncated, extra data, wrong recipient; polite or
@@ -13,9 +16,9 @@
    the parser oracle and the forbidden contents as the constraint oracle; history (sender, recipient, type,
    content), left-over buffer, `party.send` calls and the error kind must agree;
 4. the property itself, judged without the model: the history is a prefix (an interaction when the run
-   reports completion) by the verified matcher; per external sender recorded contents ++ left-over buffer =
-   the data that sender delivered, in order; every recorded remote message was delivered to the recipient
-   it is recorded with; `party.send` was called exactly once, in order, for every message Fandango appended
+   reports completion) by the verified matcher; per (external sender, recipient) channel recorded contents ++
+   left-over buffer = the data that sender delivered to that recipient, in order (so every recorded remote message
+   was delivered to the recipient it is recorded with); `party.send` was called exactly once, in order, for every message Fandango appended
    for an external recipient; every content is a word of its type and not forbidden; a freshly parsed spec's
    brand-new constraint objects accept the recorded interaction.
 """
@@ -29,6 +32,7 @@ import traceback
 from concurrent.futures import ProcessPoolExecutor, as_completed
 from typing import Any, Optional
 
+from harness import translate_iorun
 from harness.common import VERIF, MachineryError, Run, driver_ask, lean_check, rng_for, seed_of_env, use_repo
 
 PID = "C20"
@@ -39,6 +43,9 @@ TRUSTED = [
     "hand-written model lean/Model/IoRun.lean of FandangoIO (add_receive, clear_by_party), _find_next_fragment, "
     "parse_next_remote_packet and the send/receive alternation of _generate_io, tied to /repo by this run's "
     "correspondence on generated specs × peer behaviours × schedules (generator-bounded)",
+    "translator harness/translate_iorun.py (source-shape pins by ast.unparse text: which of the two known shapes — "
+    "sender-only / sender+recipient, unguarded / _extends_history-guarded — each of the seven pinned sites has; any "
+    "other shape is a refusal = broken obligation)",
     "oracles of the model: forecast = the verified forecaster of C19 (drv_proto), runs on which the real forecaster "
     "disagrees with it are counted and left to C19; parser of one message type = membership / proper-prefix in the "
     "finite content language (that the real incremental parser computes this for every chunking is C13); constraint "
@@ -319,24 +326,35 @@ def judge(info: dict, table: dict, complete: set, obs: dict, model: Optional[dic
             bad.append((SIG_PREFIX, f"recorded history {[list(x) for x in k]} is not a prefix of an interaction"))
         elif obs["status"] == "done" and k not in complete:
             bad.append((SIG_COMPLETE, f"run reported completion after {[list(x) for x in k]}"))
-    # (2) per external sender: recorded ++ left-over = delivered, in order; true recipients
+    # (2) per (external sender, recipient) channel: recorded ++ left-over = delivered, in order
     allh = hist + ([rejected] if rejected else [])
     for p in sorted(ext):
-        recorded = [c for m in allh if m[0] == p for c in m[3]]
-        left = [b[2] for b in obs["buffer"] if b[0] == p]
-        stream = [(c, d[1]) for d in obs["delivered"] if d[0] == p for c in d[2]]
-        if recorded + left != [c for c, _ in stream]:
-            bad.append((SIG_ACCOUNT, f"sender {p}: recorded {recorded} ++ buffered {left} != delivered {[c for c, _ in stream]}"))
+        mine = [m for m in allh if m[0] == p]
+        if any(m[1] is None for m in mine):
+            continue        # a message that names no recipient: its channel is not recorded (not generated here)
+        chans = sorted({m[1] for m in mine} | {b[1] for b in obs["buffer"] if b[0] == p}
+                       | {d[1] for d in obs["delivered"] if d[0] == p})
+        wrong = []
+        for q in chans:
+            recorded = [c for m in mine if m[1] == q for c in m[3]]
+            left = [b[2] for b in obs["buffer"] if b[0] == p and b[1] == q]
+            stream = [c for d in obs["delivered"] if d[0] == p and d[1] == q for c in d[2]]
+            if recorded + left != stream:
+                wrong.append((q, recorded, left, stream))
+        if not wrong:
             continue
-        pos = 0
-        for m in allh:
-            if m[0] != p:
-                continue
-            got = {r for _, r in stream[pos:pos + len(m[3])]}
-            pos += len(m[3])
-            if got and got != {m[1]}:
-                bad.append((SIG_RECIPIENT, "a remote message is recorded with the spec's recipient although its data was "
-                                           "delivered to another fuzzer-controlled party"))
+        # narrow class (the rule before 8c7aa85d): the sender's data is all there and in order when the recipients
+        # are ignored — it was merely merged across recipients
+        rec_p = [c for m in mine for c in m[3]]
+        left_p = [b[2] for b in obs["buffer"] if b[0] == p]
+        stream_p = [c for d in obs["delivered"] if d[0] == p for c in d[2]]
+        q, recorded, left, stream = wrong[0]
+        if rec_p + left_p == stream_p:
+            bad.append((SIG_RECIPIENT, f"a remote message is recorded with the spec's recipient although its data was "
+                                       f"delivered to another fuzzer-controlled party: channel {p}->{q} recorded "
+                                       f"{recorded} ++ buffered {left} != delivered {stream}"))
+        else:
+            bad.append((SIG_ACCOUNT, f"channel {p}->{q}: recorded {recorded} ++ buffered {left} != delivered {stream}"))
     # (3) party.send exactly once, in order, for the fuzzer's messages to external recipients
     want = [[m[0], m[1], m[2], m[3]] for m in hist if m[0] in fz and (m[1] is None or m[1] in ext)]
     sends = obs["sends"]
@@ -474,6 +492,13 @@ def run_spec(job: dict) -> dict:
             count("status:" + obs["status"] + (":" + kind.split(":")[0] if kind else ""))
             count("fault:" + str(obs.get("fault_done")))
             count("remote-chunks:" + str(min(len(obs["delivered"]), 7)))
+            for k, v in (obs.get("tries") or {}).items():
+                if v:
+                    count("extends_history:" + k, v)
+            if len({(d[0], d[1]) for d in obs["delivered"]}) > 1:
+                count("runs-with-several-channels")
+            if len({d[1] for d in obs["delivered"]}) > 1 and len({d[0] for d in obs["delivered"]}) == 1:
+                count("runs-one-sender-two-recipients")
             if obs.get("c19_divergence"):
                 count("left-to-C19:forecast-differs-from-verified")
                 if len(res.setdefault("divergences", [])) < 3:
@@ -531,16 +556,29 @@ def make_jobs(run: Run, tier: str) -> list[dict]:
     return jobs
 
 
+def build_drivers() -> None:
+    from harness.common import LEAN, _Lock, _run
+    with _Lock():
+        rc, log = _run(["lake", "build", "drv_io", "drv_proto"], LEAN, 1500)
+    if rc != 0:
+        raise MachineryError("C20: the model drivers do not build:\n" + log[-1500:])
+
+
 def main(tier: str) -> int:
     use_repo()
     run = Run(PID, tier, "proof")
     load_known(run)
+    gen = translate_iorun.regenerate()
     lean = lean_check("Props.C20", ["drv_io", "drv_proto"])
-    print(f"[C20] lean_check {time.time() - run.t0:.1f}s", flush=True)
+    for r in gen["refusals"]:
+        lean.broken.append({"module": "Generated.IoRun", "reason": "translator refused: " + r})
+    run.coverage["generated_variant"] = gen["flags"]
+    run.coverage["pinned_sites"] = gen["sites"]
+    print(f"[C20] translator {gen['flags']} refusals={len(gen['refusals'])}; lean_check {time.time() - run.t0:.1f}s",
+          flush=True)
     if not lean.ok:
-        for b in lean.broken:
-            run.report("C20/obligation-broken", f"Lean obligation no longer checks: {json.dumps(b)[:400]}",
-                       {"broken": b}, no_input=True)
+        # the drivers do not depend on Props/C20: make sure they follow the regenerated variant
+        build_drivers()
     jobs = make_jobs(run, tier)
     workers = int(os.environ.get("VERIF_WORKERS", "6" if tier == "quick" else "8"))
     results = []
@@ -566,9 +604,15 @@ def main(tier: str) -> int:
             for sig, what in c["bad"]:
                 run.report(sig, what, {"spec": job["spec"], "info": job["info"], "scenario": c["sc"],
                                        "tape": c["tape"], "observation": c["obs"]})
+    if not lean.ok and not run.violations and not run.known_hits:
+        # the obligations are broken and no schedule of this run shows the property failing
+        run.report("C20/obligation-broken", "proof obligations of Props/C20.lean no longer check for the rule the source "
+                   f"has now (generated variant {gen['flags']}): {json.dumps(lean.broken)[:700]}",
+                   {"broken": lean.broken, "generated_variant": gen["flags"], "refusals": gen["refusals"]}, no_input=True)
     return run.finish(
-        lean, "every schedule explored: model = run (history, buffer, party.send, error kind); history prefix-valid by the "
-              "verified forecaster; per-sender accounting; recipients; contents; fresh constraint objects",
+        lean, "every schedule explored: model = run (history, buffer, party.send, error kind, every _extends_history verdict); "
+              "history prefix-valid by the verified forecaster; per-(sender, recipient) channel accounting; contents; "
+              "fresh constraint objects",
         explanation="real _generate_io driven event by event (virtual clock, scripted parties); schedules enumerated depth "
                     "first per scenario (fragmentation × early/late arrival), capped; forecast oracle of the model = C19's "
                     "verified forecaster",
